@@ -7,7 +7,9 @@ import (
 	"encoding/hex"
 	"fmt"
 	"math/big"
+	"os"
 	"strings"
+	"sync"
 	"testing"
 
 	"github.com/gcash/bchutil"
@@ -494,6 +496,102 @@ func genPubKeyHex(t *rapid.T) string {
 
 var kC02 = register(&Kind[c02Case]{Prop: "C02", Name: "decode", Gen: genC02, Eval: evalC02})
 
+// ---- kind: concurrent (a valid address and corrupted copies of it, decoded at the same time) ----
+
+type c02Conc struct {
+	Net     int      `json:"net"`
+	Valid   string   `json:"valid"`
+	Corrupt []string `json:"corrupt"`
+}
+
+func evalC02Conc(c c02Conc, o *Obs) error {
+	p := nets[c.Net].Params
+	if _, err := bchutil.DecodeAddress(c.Valid, p); err != nil {
+		return hbug("valid address rejected sequentially: %v", err)
+	}
+	for _, s := range c.Corrupt {
+		if _, err := bchutil.DecodeAddress(s, p); err == nil {
+			return fmt.Errorf("DecodeAddress(%q, %s) accepts a string with a failing checksum", s, nets[c.Net].Name)
+		}
+	}
+	o.NT()
+	o.Class("C02:concurrent-valid-and-corrupted")
+	loops := 300
+	if os.Getenv("VERIF_REPLAY") != "" {
+		loops = 20000
+	}
+	errs := make(chan error, len(c.Corrupt)+1)
+	var wg sync.WaitGroup
+	start := make(chan struct{})
+	run := func(s string, wantOK bool) {
+		defer wg.Done()
+		<-start
+		for i := 0; i < loops; i++ {
+			a, err := bchutil.DecodeAddress(s, p)
+			if wantOK && (err != nil || !strings.HasSuffix(asciiLower(c.Valid), a.EncodeAddress())) {
+				errs <- fmt.Errorf("DecodeAddress(%q, %s) fails or decodes to another address (%v) while other strings are decoded concurrently", s, nets[c.Net].Name, err)
+				return
+			}
+			if !wantOK && err == nil {
+				errs <- fmt.Errorf("DecodeAddress(%q, %s) accepts a string with a failing checksum while %q is decoded concurrently (it is rejected on its own)", s, nets[c.Net].Name, c.Valid)
+				return
+			}
+		}
+	}
+	wg.Add(1 + len(c.Corrupt))
+	go run(c.Valid, true)
+	for _, s := range c.Corrupt {
+		go run(s, false)
+	}
+	close(start)
+	wg.Wait()
+	select {
+	case err := <-errs:
+		return err
+	default:
+	}
+	return nil
+}
+
+var kC02Conc = register(&Kind[c02Conc]{
+	Prop: "C02", Name: "concurrent",
+	Gen: func(t *rapid.T) c02Conc {
+		c := c02Conc{Net: genNet(t)}
+		p := nets[c.Net].Params
+		prefix := p.CashAddressPrefix
+		if p.SlpAddressPrefix != "" && rapid.Bool().Draw(t, "slp") {
+			prefix = p.SlpAddressPrefix
+		}
+		hl, typ := 20, rapid.IntRange(0, 1).Draw(t, "typ")
+		if rapid.IntRange(0, 3).Draw(t, "p2sh32") == 0 {
+			hl, typ = 32, 1
+		}
+		body := refCashEncode(prefix, typ, genBytesN(t, "hash", hl))
+		c.Valid = prefix + ":" + body
+		if rapid.Bool().Draw(t, "noprefix") {
+			c.Valid = body
+		}
+		for i := rapid.IntRange(1, 3).Draw(t, "ncorrupt"); i > 0; i-- {
+			b := []byte(body)
+			j := rapid.IntRange(0, len(b)-1).Draw(t, "pos")
+			for {
+				ch := b32Charset[rapid.IntRange(0, 31).Draw(t, "sym")]
+				if ch != b[j] {
+					b[j] = ch
+					break
+				}
+			}
+			s := string(b)
+			if strings.Contains(c.Valid, ":") {
+				s = prefix + ":" + s
+			}
+			c.Corrupt = append(c.Corrupt, s)
+		}
+		return c
+	},
+	Eval: evalC02Conc,
+})
+
 func TestC02(t *testing.T) {
 	propTest(t, "C02", func(ev *Ev) {
 		ev.Rule("strings from five generator classes, each decoded on all six networks: A valid-checksum CashAddr strings over "+
@@ -551,6 +649,8 @@ func TestC02(t *testing.T) {
 			}
 		}
 		kC02.Run(t, ev, perShard(pick(10000, 6000000)))
+		runConcurrent(kC02, t, ev, perShard(pick(200, 20000)), 8)
+		kC02Conc.Run(t, ev, perShard(pick(300, 30000)))
 		ev.requireClasses("C02:class-A", "C02:class-B", "C02:class-C", "C02:class-D", "C02:class-E",
 			"C02:accepted-cash", "C02:accepted-slp", "C02:accepted-legacy", "C02:accepted-pubkey", "C02:outer-layer-passed")
 	})
